@@ -405,7 +405,29 @@ func (e *storeEngine) crashw(o map[string]string) string {
 		sk = string(v)
 	}
 	sk += "/" + e.ldg.GetBalance(lAddr("a0")).String()
-	return fmt.Sprintf("h=%d opened chain=%d state=%d blockfile=%d head=%s statekey=%s", h, m.Height, e.ldg.Version(), blocks, head, sk)
+	return fmt.Sprintf("h=%d opened chain=%d state=%d blockfile=%d head=%s statekey=%s root=%s", h, m.Height, e.ldg.Version(), blocks, head, sk, e.rootState())
+}
+
+// rootState: is the state root of the head block the state store's current root (the root the next block's journal hash chains from)?
+func (e *storeEngine) rootState() string {
+	sl, ok := e.ldg.StateLedger.(*ledger.SimpleLedger)
+	if !ok {
+		return "unknown"
+	}
+	cur := ledger.VerifPrevRoot(sl)
+	m := e.ldg.GetChainMeta()
+	want := (&types.Hash{}).String()
+	if m.Height > 0 {
+		b, err := e.ldg.GetBlock(m.Height, false)
+		if err != nil {
+			return "unknown"
+		}
+		want = b.BlockHeader.StateRoot.String()
+	}
+	if cur != nil && cur.String() == want {
+		return "match"
+	}
+	return "differs"
 }
 
 func (e *storeEngine) crash(o map[string]string) string {
@@ -493,5 +515,5 @@ func (e *storeEngine) crash(o map[string]string) string {
 		sk = string(v)
 	}
 	sk += "/" + e.ldg.GetBalance(lAddr("a0")).String()
-	return fmt.Sprintf("h=%d opened chain=%d state=%d blockfile=%d head=%s statekey=%s", h, m.Height, e.ldg.Version(), blocks, head, sk)
+	return fmt.Sprintf("h=%d opened chain=%d state=%d blockfile=%d head=%s statekey=%s root=%s", h, m.Height, e.ldg.Version(), blocks, head, sk, e.rootState())
 }
